@@ -2,9 +2,11 @@ CONSTANTS
   Versions <- MCVersions
   Gen <- MCGen
   HelperPath = "codable"
+  Fails <- MCFails
+  EagerWrite = FALSE
   HelperBug = FALSE
   MaxRuns = 4
 SPECIFICATION Spec
 INVARIANT Fresh EmitHistory
-PROPERTY Idempotent
+PROPERTIES Idempotent FailedRunTouchesNothing
 CHECK_DEADLOCK FALSE
